@@ -38,7 +38,7 @@ DEFAULT_LABELS = {"modified": "", "added": "added:", "removed": "removed:", "ren
                   "copied": "copied:"}
 EVENTS = ["modified", "added", "deleted", "renamed", "renamed_changed", "copied", "mode",
           "mode_changed", "binary", "empty", "renamed_binary", "conflict_at_top", "combined_binary",
-          "mode_binary", "combined_mode", "two_names_mode"]
+          "mode_binary", "combined_mode", "two_names_mode", "submodule", "quotes_subproject"]
 
 
 def enc(s):
@@ -153,6 +153,18 @@ def make_section(event, shape, n, prefixes=("a/", "b/"), src="git", frag=""):
                  "rename to " + (('"%s"' % new) if quoted else new), "index 1111111..2222222 100644",
                  "Binary files %s and %s differ" % (withq(pa, old), withq(pb, new))]
         spec.update(label_key="renamed", new=new, addenda=[], must_mention="Binary")
+    elif event == "submodule":
+        # a submodule moved to another commit (git diff without --submodule): delta shows the two short hashes
+        # instead of a hunk; no hunk header is due for it
+        lines = [d, "index 1111111..2222222 160000", "--- " + marker(pa, old), "+++ " + marker(pb, new),
+                 "@@ -1 +1 @@", "-Subproject commit " + "1" * 40, "+Subproject commit " + "2" * 40]
+        spec["submodule"] = True
+    elif event == "quotes_subproject":
+        # an ordinary file whose hunk starts with lines that read like a submodule's (a test fixture, a note):
+        # they are lines of this file, and the hunk gets its header like any other - whatever section preceded
+        lines = [d, "index 1111111..2222222 100644", "--- " + marker(pa, old), "+++ " + marker(pb, new), hh,
+                 "-Subproject commit " + "3" * 40, "+Subproject commit " + "4" * 40, " a"]
+        spec["hunks"] = [frag]
     else:
         raise ValueError(event)
     return [enc(l) for l in lines], spec
@@ -302,6 +314,15 @@ class Headers(Problem):
             i += 1
         return (pend_file, nfile, pend_hunk, prev, mention)
 
+    def _hunk_header_due(self, m2, where):
+        # every `@@` line of a file's section has produced its hunk header by the time the section is over
+        # (a header that is still pending then was dropped: its hunk was shown without it)
+        pend_hunk = m2[2]
+        if pend_hunk is not None and not self.ocfg.get("hunk_omit") and \
+                ((pend_hunk and not self.ocfg.get("no_fragment")) or self.ocfg.get("hunk_ln")):
+            raise ViolationError("missing-hunk-header", "the hunk introduced by `@@ ... @@ %s` got no hunk header %s"
+                                 % (pend_hunk, where), expected=pend_hunk)
+
     def step(self, model, line, kind, out, ps):
         n, mi, i = ps
         if mi == "C":
@@ -325,10 +346,13 @@ class Headers(Problem):
                                      "section %d (%s) got no file header before the next section "
                                      "started" % (m2[0][0], m2[0][1]["event"]),
                                      expected=m2[0][1]["old"])
+            self._hunk_header_due(m2, "before the next section started")
             return ((n, spec), m2[1], None, (0, 0), spec.get("must_mention"))
         is_hh = line.startswith(b"@@")
         hunk_line = (not is_hh) and spec["hunks"] and line[:1] in (b" ", b"-", b"+") and \
             not line.startswith((b"--- ", b"+++ "))
+        if is_hh and spec.get("submodule"):
+            return self._rows(model, out, n, spec, False)
         if is_hh:
             frag = line.split(b"@@", 2)[2].lstrip(b"@").strip().decode("utf-8") if line.count(b"@@") >= 2 else ""
             model = (pend_file, nfile, frag, prev, mention)
@@ -343,6 +367,7 @@ class Headers(Problem):
             return
         spec = None if mi == "C" else self.sec(mi, n)[1]
         m2 = self._rows(model, out, n, spec, False)
+        self._hunk_header_due(m2, "by end of input")
         if m2[4]:
             raise ViolationError("binary-not-reported", "the last section (a renamed and modified binary file) is shown "
                                  "without any mention that the file is binary", expected=m2[4])
@@ -450,6 +475,51 @@ def run_raw_filestyle(task):
     return {"n": n, "violations": viols}
 
 
+def run_fragment_maxlen(task):
+    """the code fragment of a hunk header is git's, unchanged, also when the `@@` line is longer than
+    --max-line-length - whether or not git coloured the line (git diff --color=always | delta)."""
+    _ = task
+    drv = explore.get_driver()
+    viols = []
+    n = 0
+    frags = ["fn a_rather_long_function_name(first_argument: usize, second: &str) -> Outcome {",
+             "impl<'a> Längere Überschrift für Abschnitt { // 漢字 " + "x" * 30]
+    for hstyle in ("line-number 110", "110", "file line-number 110", "line-number syntax 110"):
+        for maxlen in ("10", "40", "70"):
+            opts = dict(LABEL_OPTS, **{"hunk-header-style": hstyle, "max-line-length": maxlen, "width": "200"})
+            args = build_args(base_opts(opts))
+            cid = drv.mkconfig(args)
+            for frag in frags:
+                for coloured in (False, True):
+                    for three in (False, True):
+                        B, C, R, G, M = ("\x1b[1m", "\x1b[36m", "\x1b[31m", "\x1b[32m", "\x1b[m") if coloured else ("",) * 5
+                        hh = "@@@ -10,3 -10,3 +10,3 @@@" if three else "@@ -10,3 +10,3 @@"
+                        body = ["  a", "- b", " +c"] if three else [" a", "-b", "+c"]
+                        lines = [B + ("diff --cc a.rs" if three else "diff --git a/a.rs b/a.rs") + M,
+                                 B + "index 1111111..2222222 100644" + M, B + "--- a/a.rs" + M, B + "+++ b/a.rs" + M,
+                                 C + hh + M + " " + frag, body[0], R + body[1] + M, G + body[2] + M]
+                        data = b"".join(enc(l) + b"\n" for l in lines)
+                        r = drv.render1(cid, data)
+                        n += 1
+                        if r.panic:
+                            continue
+                        rows = [info for info in obs.observe(r.out) if info.kind == "hunk"]
+                        texts = ["".join(t for t, c in info.body_runs if c is None or not c.endswith("_deco"))
+                                 for info in rows]
+                        carrying = [t for t in texts if frag in t]
+                        klass = "fragment-cut-at-max-line-length:%s" % ("coloured" if coloured else "plain")
+                        if len(carrying) != 1 and not any(v.klass == klass for v in viols):
+                            v = explore.Violation(klass, "[hunk-header-style=%s, max-line-length=%s, %s input] %d hunk "
+                                                  "header rows carry the code fragment %r unchanged (want 1): %r"
+                                                  % (hstyle, maxlen, "coloured" if coloured else "plain",
+                                                     len(carrying), frag, texts), lines)
+                            v.args = args
+                            v.config_label = "fragment-maxlen"
+                            viols.append(v)
+            drv.drop(cid)
+    return {"n": n, "violations": viols}
+
+
 def menus(tier):
     full = []
     for ev in EVENTS:
@@ -495,7 +565,9 @@ def main(tier):
                 tasks.append((label + "/same-file", ov, core, 2, "git+same"))
     cap = 45 if tier == "quick" else 900
     rres = explore.pmap(run_raw_filestyle, [None])
+    fres = explore.pmap(run_fragment_maxlen, [None])
     return runner.run_e1(PROP, tier, tasks, run_task, ASSUMPTIONS, cap,
                          {"config_deviation_bound": d, "configurations": len(configs),
-                          "raw_file_style_renders": sum(r["n"] for r in rres)},
-                         extra_violations=[v for r in rres for v in r["violations"]])
+                          "raw_file_style_renders": sum(r["n"] for r in rres),
+                          "fragment_vs_max_line_length_renders": sum(r["n"] for r in fres)},
+                         extra_violations=[v for r in rres + fres for v in r["violations"]])
